@@ -723,6 +723,10 @@ class AsyncFIXConnection:
         else:
             self.log.info(f"SequenceReset received from peer: {seqreset_msg}")
 
+        # NewSeqNo must be usable before anything is touched
+        new_seq_no = int(seqreset_msg[FTag.NewSeqNo])
+        assert new_seq_no > 0, "SequenceReset: bad NewSeqNo(36)"
+
         # Cleanup journal of past messages if session was reset to avoid SQL dup errors
         #   Sometimes we might have outdated seq nums in journal
         self._journaler.set_seq_num(
@@ -730,9 +734,7 @@ class AsyncFIXConnection:
         )
 
         # Set journal at new NewSeqNo
-        self._journaler.set_seq_num(
-            self._session, next_num_in=int(seqreset_msg[FTag.NewSeqNo])
-        )
+        self._journaler.set_seq_num(self._session, next_num_in=new_seq_no)
         return True
 
     async def _finalize_message(self, msg: FIXMessage, raw_msg: bytes):
